@@ -52,7 +52,11 @@ func c04NewWorld(seed string, trust bool) (*c04World, error) {
 		}
 	}
 	for i := 0; i < 4; i++ {
-		if r := w.ProposeTx(0, w.MakeTx(0, 1+i%3, spice.New(5, 0), 0)); r.Err != nil {
+		// funding transfers are sealed over the code's own message layout (GetMessage), so that a change to the
+		// layout leaves the world buildable and is judged by the mutants instead of ending inconclusive
+		ftx := w.MakeTx(0, 1+i%3, spice.New(5, 0), 0)
+		ftx.Hash, ftx.IssuerSignature = w.Wallets[0].Sign(ftx.GetMessage())
+		if r := w.ProposeTx(0, ftx); r.Err != nil {
 			return cw, r.Err
 		}
 	}
